@@ -61,7 +61,7 @@ def r1(ctx: Ctx) -> None:
             ctx.check(ok, f, l.node, "a merge happens only after both error tests passed", "parent in whole_json and parent not in history", bp.describe()[:160])
             if cyc:
                 hist = cyc[0][0][3]
-                app = [e for e in calls(bp) if e.name == "append" and e.recv == hist and e.args and strip_ver(e.args[0]) == strip_ver(parent)]
+                app = [e for e in calls(bp) if e.name in ("append", "add") and e.recv == hist and e.args and strip_ver(e.args[0]) == strip_ver(parent)]
                 ctx.check(len(app) == 1, f, l.node, "every visited parent is recorded in the history used by the cycle test", "history.append(parent)", f"{len(app)} append(s)")
             pops = [e for e in calls(bp) if e.name == "pop" and strip_ver(e.recv) == strip_ver(ph) and e.args and e.args[0] == ("const", "extends")]
             dels = [e for e in bp.events if e.kind == "del" and e.base == ph and e.index == ("const", "extends")]
@@ -86,6 +86,10 @@ def r1(ctx: Ctx) -> None:
                         ok = cc[0] == "cmp" and cc[1] == "in" and cc[2] == ("bound", names_[0]) and cpol is False
                         if ok:
                             ex = cc[3]
+                            while ex[0] == "call" and ex[1][0] == "name" and ex[1][1] in ("frozenset", "set", "tuple", "list") and len(ex[2]) == 1:
+                                ex = ex[2][0]  # the same names, held in another container
+                            if ex[0] == "bool" and ex[1] == "or" and len(ex[2]) == 2:
+                                ex = ex[2][0]  # excludes_fields or []
                             lit = alloc_literal(p, ex)
                             raw_ex = None
                             for s_ in subterms(raw if raw[0] != "sym" else NONE):
@@ -206,6 +210,13 @@ def check_registries(ctx: Ctx) -> None:
             sts = [e for e in p.walk_events() if e.kind == "store" and e.attr is None]
             want_id = any(key(strip_ver(e.base)) == f"self.id2{obj}" and key(strip_ver(e.index)) == f"{obj}.{idattr}" and key(strip_ver(e.value)) == obj for e in sts)
             want_nm = any(key(strip_ver(e.base)) == f"self.name2{obj}" and key(strip_ver(e.index)) == f"{obj}.name" and key(strip_ver(e.value)) == obj for e in sts)
+            if not (want_id and want_nm):
+                # filed through another table keyed by the object's own id / name (an index next to a list): indirect, not decided
+                ind_id = want_id or any(key(strip_ver(e.index)) == f"{obj}.{idattr}" for e in sts)
+                ind_nm = want_nm or any(key(strip_ver(e.index)) == f"{obj}.name" for e in sts)
+                if ind_id and ind_nm:
+                    ctx.unrec(f, f.node, f"{q}: the object is filed under its own id and its own name", "the id or the name leads to the object through another table: how look-ups resolve it is not decided")
+                    continue
             ctx.check(want_id and want_nm, f, f.node, f"{q}: the object is filed under its own id and its own name", f"self.id2{obj}[{obj}.{idattr}] = {obj}; self.name2{obj}[{obj}.name] = {obj}",
                       "; ".join(f"{short(e.base)}[{short(e.index)}] = {short(e.value)}" for e in sts)[:200] or "no keyed store")
             got = {key(strip_ver(c)): pol for c, pol, _ in p.conds}
@@ -639,6 +650,17 @@ def check_no_carry_over(ctx: Ctx) -> int:
                         muts.append((e, ts))
                     for me, ts in muts:
                         readers = [e for e, t in _terms_of_events(bp, True) if e is not me and ts in [strip_ver(x) for x in subterms(t)] and not (e.kind == "call" and e.data.get("mutates") is not None and strip_ver(e.data["mutates"]) == ts)]
+                        def only_elements(t_: Term) -> bool:
+                            """ts occurs in t_ only as the base of a subscript (one element is read, not the collection)"""
+                            t_ = strip_ver(t_)
+                            if t_ == ts:
+                                return False
+                            if t_[0] == "sub" and strip_ver(t_[1]) == ts:
+                                return all(only_elements(x) for x in t_[2:] if isinstance(x, tuple))
+                            return all(only_elements(x) for x in t_[1:] if isinstance(x, tuple) and x and isinstance(x[0], str)) and all(only_elements(y) for x in t_[1:] if isinstance(x, tuple) and x and not isinstance(x[0], str) for y in x if isinstance(y, tuple) and y and isinstance(y[0], str))
+                        if readers and all(only_elements(t) for e, t in _terms_of_events(bp, True) if e in readers):
+                            ctx.unrec(f, me.node, f"{q}: what one iteration puts into a container made before the loop is not read by the next", f"{short(ts)[:60]} grows in every iteration and single elements of it are read (a running table): which element an iteration reads is not decided")
+                            continue
                         if readers:
                             ctx.violated(f, me.node, f"{q}: what one iteration puts into a container made before the loop is not read by the next", "a fresh container per iteration (or no in-place change)", f"{short(ts)[:80]} is changed in place and then read by {short(readers[0].term)[:80] if readers[0].kind == 'call' else 'a store'}: entries of earlier iterations stay in it")
             break
